@@ -160,10 +160,7 @@ func (r *Runner) RunHarness(x *Exec, base *State, fn *ssa.Function) (rep *Harnes
 				rep.Fault = fmt.Sprintf("executor panic: %v\n%s", e, debug.Stack())
 			}
 		}
-		if x.feas != nil {
-			x.feas.Close()
-			x.feas = nil
-		}
+		x.closeFeas()
 		rep.Obls = x.obls
 		rep.Funcs = x.funcs
 		rep.Dom = x.cfg.Dom.String()
@@ -445,6 +442,9 @@ func confirmOutcome(o *Obligation, out string) string {
 			return "confirmed: assertion fails natively"
 		}
 	case "panic", "unwind":
+		if o.Kind == "unwind" && strings.Contains(out, "test timed out") {
+			return "confirmed: native run does not terminate (test timed out after 60s)"
+		}
 		if i := strings.Index(out, "REPLAY panic "); i >= 0 {
 			l := out[i:]
 			if j := strings.Index(l, "\n"); j >= 0 {
